@@ -250,6 +250,11 @@ JudgeStepAbs(ev, st) ==
       ELSE Let1(AskProblem(ev, st), LAMBDA ap :
         Let1(WithAnswers(ev, st), LAMBDA s1 :
         Let1(st.layout[CHOOSE i \in ds : TRUE], LAMBDA d :
+        \* a register the instruction reads is known or was asked for in this step; if not, the tool executed something
+        \* else than the instruction at the specification's instruction pointer
+        IF \E q \in 1..Len(d.nodes) : d.nodes[q].k = "r" /\ ~RKnown(s1.regs, d.nodes[q].n)
+          THEN Fail("regs", "the registers read by the instruction at the instruction pointer are known or asked for",
+                    ev.asks, [NoState EXCEPT !.run1 = st.run1]) ELSE
         Let1(EvalAll(d.nodes, [regs |-> RegEnv(s1.regs), mem |-> MemEnv(s1.mem, MemKeysOf(s1, d))]), LAMBDA vals :
         Let1(ApplyEffs(d, vals, s1, OffAddr(st, off + d.len), OffAddr(st, d.orig + d.len)), LAMBDA s2 :
           IF Aspect = "asks" THEN (IF ap.why # "" THEN Fail(ap.why, "only unknown state is asked for, once", ap.got, s2) ELSE Pass(s2))
